@@ -12,7 +12,7 @@ import cbcheck as cc
 FUZZ_DIR = os.path.join(cc.ROOT, "fuzz")
 FUZZ_BIN = os.path.join(FUZZ_DIR, "target", "x86_64-unknown-linux-gnu", "release")
 FUZZ_PROPS = {"C01": "history", "C03": "history", "C09": "history", "C10": "history", "C14": "bytes_io"}
-MIRI_PROPS = {"C03": (2, 3), "C04": (2, 7), "C07": (2, 3)}  # property: (max capacity, stride over the cases of a unit)
+MIRI_PROPS = {"C03": (3, 5), "C04": (3, 12), "C07": (3, 5)}  # property: (max capacity, stride over the cases of a unit)
 
 
 def fuzz_build():
